@@ -68,7 +68,9 @@ fn rand_content(rng: &mut Rng, id: u16, answer: bool) -> Content {
         let b = rng.bytes(4);
         adds.push((format!("ns.{}", qname), 3600, [b[0], b[1], b[2], b[3]]));
     }
-    Content { id, qr: answer, rcode: 0, qname, answers, adds }
+    // answers carry any RCODE: the TSIG checks must not depend on it (except NOTAUTH error answers)
+    let rcode = if answer && rng.chance(1, 3) { *rng.pick(&[2u8, 3, 5, 9, 9, 10]) } else { 0 };
+    Content { id, qr: answer, rcode, qname, answers, adds }
 }
 
 #[derive(Clone)]
@@ -304,8 +306,11 @@ fn main() {
                     for _ in 0..n { pending.extend_from_slice(&pre); }
                     fl = Flight::unsigned(&pre, n);
                 } else {
+                    // the responder may put any error code / other-data into a signed answer
+                    let err = if rng.chance(1, 4) { *rng.pick(&[16u16, 17, 18, 18, 22]) } else { 0 };
+                    let other = if err == 18 && rng.chance(3, 4) { u48(now_s).to_vec() } else { vec![] };
                     let mut rr = TsigRr { name: name_wire(&sname), alg: alg_wire(alg), time: now_s, fudge: sfudge, mac: vec![],
-                                          oid: vid, err: 0, other: vec![] };
+                                          oid: vid, err, other };
                     let mut stub = pre.clone();
                     let ar = get_ar(&stub);
                     set_ar(&mut stub, ar + 1);
@@ -317,6 +322,7 @@ fn main() {
                     let mut wire = stub;
                     wire.extend(rr.encode());
                     w.event(json!({"ev": "rfc_answer", "pre": json_bytes(&pre), "now": now_s, "fudge": sfudge, "wire": json_bytes(&wire),
+                                   "err": rr.err, "other": json_bytes(&rr.other),
                                    "digest": json_bytes(&digest), "full": json_bytes(&full)}));
                     prior = rr.mac.clone();
                     cur_full = full.clone();
